@@ -346,14 +346,14 @@ def check2(prop, tier, seed, plugin, report, driver, t0):
             if l and not l.startswith('#'): cases.append((l, 'corpus'))
     # changed-source escalation: when a source file the property is anchored in differs from the copy the goldens were
     # taken from, the quick tier explores with the thorough tier's generators (nothing changes on the unchanged tree)
-    gen_tier, changed = tier, []
+    gen_tier, changed, escalate = tier, [], False
     try:
         gold_src = json.load(open(os.path.join(LEAN, 'Golden', 'SOURCES.json')))
         anchors = [json.loads(l) for l in open(os.path.join(ROOT, 'properties.jsonl'))]
         files = set(next(a for a in anchors if a['id'] == prop)['anchors']['files']) | set(getattr(plugin, 'SOURCE_FILES', []))
         cur = report['extract'].get('sources', {})
         changed = sorted(f for f in files if cur.get(f) != gold_src.get(f))
-        if changed and tier == 'quick' and os.environ.get('VERIF_NO_ESCALATE') != '1': gen_tier = 'thorough'
+        escalate = bool(changed) and tier == 'quick' and os.environ.get('VERIF_NO_ESCALATE') != '1'
     except Exception:
         pass
     report['source_changed'] = changed
@@ -365,6 +365,17 @@ def check2(prop, tier, seed, plugin, report, driver, t0):
         if line not in seen:
             seen.add(line); lines.append(line)
     results = evaluate(plugin, driver, lines)
+    if escalate and not any((property_fails(r) and match_known(known, r['line']) is None) or 'impl!=model' in r['kinds'] or 'harness' in r['kinds'] for r in results) \
+            and not report['broken_obligations'] and not report['tie_broken']:
+        # an anchored source file changed and the quick stream saw nothing: look again with the thorough generators
+        extra = []
+        for line, tag in plugin.cases('thorough', random.Random(seed)):
+            tags['esc:' + tag] = tags.get('esc:' + tag, 0) + 1
+            if line not in seen:
+                seen.add(line); extra.append(line)
+        results += evaluate(plugin, driver, extra)
+        lines += extra
+        report['escalated'] = len(extra)
     harness = [r for r in results if 'harness' in r['kinds']]
     if harness:
         log('INFRA: harness failure on %d lines, first: %r' % (len(harness), harness[0]))
@@ -461,7 +472,7 @@ def check2(prop, tier, seed, plugin, report, driver, t0):
             'compared_with_predicate': len([r for r in results if r['impl'] != 'ERR']) if hasattr(plugin, 'check_impl') else 0,
             'samples': [{'line': r['line'][:300], 'impl': r['impl'][:200], 'model': r['model'][:200], 'spec': r['spec'][:200]}
                         for r in (results[:2] + results[len(results) // 2:len(results) // 2 + 2] + results[-2:])],
-            'source_changed_since_golden': report.get('source_changed', []),
+            'source_changed_since_golden': report.get('source_changed', []), 'escalated_lines': report.get('escalated', 0),
             'translator': {'items': report['extract'].get('items', []), 'failed': report['extract'].get('failed', {})},
             'known_findings_reproduced': sorted(known_hits),
             'exhaustive': False,
